@@ -32,10 +32,19 @@ clang CFGs of initTaskingSystem / numTaskingThreads with all callees that have a
            keeps capping the new setting; harmless for the backends whose handle owns no limit object).
   R-C13-9  OpenMP: the initialisation path does not enable nested parallel regions (omp_set_max_active_levels(k >= 2) /
            omp_set_nested(non-zero) would let every outer thread fork its own team of n).
+  R-C13-10 destructors are followed: when the global handle is overwritten (unique_ptr assignment / reset / a local owner
+           going out of scope) the previous handle's destructor runs *after* the new handle was constructed; if it writes
+           the backend limit, the last write on the path is not n any more (recognised wrong).  TBB's global_control does
+           this correctly inside the library and has no rkcommon destructor body, so it stays silent.
+  R-C13-11 the object holding the process-wide handle is one object per program: if initTaskingSystem / numTaskingThreads are
+           inline in the public header, the state they reach must not be a namespace-scope variable with internal linkage
+           (`static` / anonymous namespace in a header = one copy per translation unit); a function-local static of an
+           inline function, a C++17 inline variable or an extern declaration are accepted.
 
 Not decided: that no more than n threads are ever inside parallel_for bodies at the same time (a runtime quantity
 of each backend's scheduler).
 """
+import os
 import re
 
 from rkstatic.x_expr import INF, Poly, counted_loops
@@ -282,7 +291,7 @@ def expected_getter(cfg, ret):
 
 # ================================================================================================
 def check_init(ctx, cfg, tus, tag, G, GT):
-    R1, R4, R8, R9 = 'R-C13-1', 'R-C13-4', 'R-C13-8', 'R-C13-9'
+    R1, R4, R8, R9, R10 = 'R-C13-1', 'R-C13-4', 'R-C13-8', 'R-C13-9', 'R-C13-10'
     tu = tus[0]
     f = one_fn(ctx, tu, INIT, R1)
     if f is None:
@@ -306,8 +315,20 @@ def check_init(ctx, cfg, tus, tag, G, GT):
     for p in paths:
         lo, hi = p.bounds(N)
         inst = 'initTaskingSystem [%s] n in %s' % (tag, rng((lo, hi)))
-        limits = [e for e in p.events if e[0] == 'call' and is_limit(cfg, e)]
+        all_limits = [e for e in p.events if e[0] == 'call' and is_limit(cfg, e)]
+        # limit writes made by destructors that run inside initTaskingSystem (the previous handle dying) are judged by
+        # R-C13-10, not as "the" application of n
+        dtor_limits, depth = [], 0
+        for e in p.events:
+            if e[0] == 'destroy':
+                depth += 1
+            elif e[0] == 'destroy-end':
+                depth -= 1
+            elif depth > 0 and e in all_limits:
+                dtor_limits.append(e)
+        limits = [e for e in all_limits if e not in dtor_limits]
         sig = (inst, p.kind, tuple((e[1], strip_site(limit_value(cfg, e))) for e in limits),
+               tuple((e[1], repr(strip_site(limit_value(cfg, e)))) for e in dtor_limits),
                tuple(sorted((repr(k), repr(strip_site(v))) for k, v in p.stores().items() if k[0] == 'glob')), p.approx)
         if sig in seen:
             continue        # same behaviour reached through an unrelated branch (flushDenormals)
@@ -422,6 +443,29 @@ def check_init(ctx, cfg, tus, tag, G, GT):
                     report(ctx, p, R1, inst, 'Initialize is called on %s but numTaskingThreads reads the scheduler in `%s` '
                            '(which holds %s)' % (show_val(e[2]), GT[1].split('::')[-1], show_val(cur)), e[4],
                            '%s|%s|initTaskingSystem|%s:scheduler-not-the-queried-one' % (R1, e[4].split(':')[0], cfg))
+        # ---- R-C13-10: when the call returns, the last write to the backend limit is the one that carries the new n
+        if cfg != 'DEBUG' and hi >= 1 and limits and dtor_limits:
+            destroyed = [e for e in p.events if e[0] == 'destroy']
+            last = all_limits[-1]               # events are in execution order along the path
+            v = limit_value(cfg, last)
+            if last in dtor_limits and not (v == Nv or strip_site(v) == N):
+                bad = True
+                dobj = destroyed[0][2].as_atom() if isinstance(destroyed[0][2], Poly) else None
+                from_old = isinstance(v, Poly) and bool(v.atoms(deep=False)) and all(
+                    isinstance(a, tuple) and a and a[0] == 'field' and a[1] == dobj for a in v.atoms(deep=False))
+                if from_old or (isinstance(v, Poly) and v.is_const()):
+                    report(ctx, p, R10, inst, 'after the new handle has applied n (%s at %s), the destructor of the previous handle '
+                           '(~%s, run when the global handle is overwritten) calls %s(%s) at %s: the last write to the limit is not n, '
+                           'so on every re-initialisation the setting just made is undone' % (limit_name(cfg), limits[-1][4],
+                           destroyed[0][1].split('::')[-1], limit_name(cfg), show_val(v), last[4]), last[4],
+                           '%s|%s|initTaskingSystem|%s:limit-overwritten-by-old-handle-destructor' % (R10, last[4].split(':')[0], cfg))
+                else:
+                    ctx.undecided(R10, inst, 'a destructor running inside initTaskingSystem calls %s(%s) after n was applied; cannot '
+                                  'relate that value to n' % (limit_name(cfg), show_val(v)), last[4])
+            else:
+                ctx.ok(R10, inst, 'the last limit write carries n', last[4])
+        elif cfg != 'DEBUG' and hi >= 1 and limits:
+            ctx.ok(R10, inst, 'no destructor writes the limit after n was applied', tu.fn_loc(f), nontrivial=False)
         # ---- R-C13-8: the previous handle must be gone when the call returns (TBB: the minimum over all live
         #      global_control objects is what counts, so a parked old handle keeps capping the new setting)
         if G is not None and p.bounds(G)[1] >= 1:
@@ -592,6 +636,89 @@ def run_config(ctx, cfg, tus, tag):
 
 PF_DRIVER = 'drivers/c01_parallel.cpp'
 INIT_FILE = 'rkcommon/tasking/detail/tasking_system_init.cpp'
+INIT_HEADER = 'rkcommon/tasking/tasking_system_init.h'
+CLIENT = 'drivers/c13_client.cpp'
+
+
+def check_one_handle(ctx, tu, tag):
+    """R-C13-11: one handle per program.  `tu` is a client translation unit that only includes the public header."""
+    R11 = 'R-C13-11'
+    n = 0
+    for q in (INIT, QUERY):
+        inst = '%s as seen by a client translation unit [%s]' % (q.split('::')[-1], tag)
+        n += 1
+        fs = [f for f in tu.fns(q=q, dep=False) if tu.cfg(f) is not None]
+        if not fs:
+            ctx.ok(R11, inst, 'declared only: the state lives in the library, one copy per program', 'verif:' + CLIENT, nontrivial=False)
+            continue
+        f = fs[0]
+        fnode = tu.node(f['id']) or {}
+        # persistent variables reachable from the inline body (following inline callees)
+        seen, todo, found = set(), [(f, 0)], []
+        while todo:
+            g, depth = todo.pop()
+            if g['id'] in seen or tu.body(g) is None:
+                continue
+            seen.add(g['id'])
+            for x in tu.walk(tu.body(g)):
+                k = x.get('kind')
+                if k == 'DeclRefExpr' and x.get('referencedDecl', {}).get('kind') == 'VarDecl':
+                    d = tu.node(x['referencedDecl'].get('id'))
+                    if d is None:
+                        continue
+                    par = tu.par(d)
+                    local = par is not None and par.get('kind') == 'DeclStmt'
+                    static_dur = (not local) or d.get('storageClass') == 'static' or d.get('tls') is not None
+                    ty = d.get('type', {}).get('qualType', '')
+                    if static_dur and ('unique_ptr' in ty or 'shared_ptr' in ty or ty.rstrip().endswith('*')) and \
+                            not d.get('constexpr') and (d, g, local) not in found:
+                        found.append((d, g, local))
+                elif k in ('CallExpr', 'CXXMemberCallExpr') and depth < 5:
+                    c = tu.callee_fn(x)
+                    if c is not None and not c['dep']:
+                        todo.append((c, depth + 1))
+        if not found:
+            ctx.ok(R11, inst, 'inline, but the handle is reached only through out-of-line functions of the library', tu.fn_loc(f))
+            continue
+        bad = False
+        for d, g, local in found:
+            name = d.get('name')
+            gnode = tu.node(g['id']) or {}
+            if local:
+                # function-local static: one object per program iff the enclosing function has external linkage and is inline
+                if gnode.get('storageClass') == 'static' or in_anonymous_namespace(tu, gnode):
+                    bad = True
+                    ctx.violation(R11, inst, 'the handle `%s` is a local static of `%s`, which has internal linkage: every translation '
+                                  'unit that includes the header gets its own copy of the function and of the handle' % (name, g['q']),
+                                  tu.fn_loc(g), key='%s|%s|%s|per-translation-unit-handle' % (R11, os.path.normpath(tu.fn_file(g)), name))
+                continue
+            sc = d.get('storageClass')
+            if sc == 'extern' or d.get('inline'):
+                continue                    # declared here, defined once elsewhere / C++17 inline variable: one object
+            if sc == 'static' or in_anonymous_namespace(tu, d):
+                bad = True
+                ctx.violation(R11, inst, 'the process-wide handle `%s` is a namespace-scope %s variable defined in a header and used by the inline '
+                              '%s: it has internal linkage, so every translation unit gets its own handle - numTaskingThreads() returns 0 in '
+                              'units that did not call initTaskingSystem themselves, and a re-initialisation from another unit never destroys '
+                              'the first handle' % (name, '`static`' if sc == 'static' else 'anonymous-namespace', q.split('::')[-1]),
+                              tu.fn_loc(f), key='%s|%s|%s|per-translation-unit-handle' % (R11, os.path.normpath(tu.fn_file(f)), name))
+            else:
+                bad = True
+                ctx.undecided(R11, inst, 'the handle `%s` is a non-inline namespace-scope definition visible in a header' % name, tu.fn_loc(f))
+        if not bad:
+            ctx.ok(R11, inst, 'inline; handle state: %s - one object per program' % ', '.join(
+                '%s (%s)' % (d.get('name'), 'local static of an inline function' if local else 'extern/inline variable')
+                for d, g, local in found), tu.fn_loc(f))
+    return n
+
+
+def in_anonymous_namespace(tu, node):
+    p = tu.par(node)
+    while p is not None:
+        if p.get('kind') == 'NamespaceDecl' and not p.get('name'):
+            return True
+        p = tu.par(p)
+    return False
 
 
 def check_who_may_set(ctx, tus):
@@ -614,7 +741,8 @@ def check_who_may_set(ctx, tus):
             if fname.endswith('::make_unique'):
                 site_files = sorted({tu.fn_file(c) for c in tu.functions.values() if not c['dep'] and tu.body(c) is not None
                                      and any(tu.sd(y).get('d') == f['id'] or tu.sd(y).get('def') == f['id'] for y in tu.walk(tu.body(c)))}) or site_files
-            outside = any(sf != INIT_FILE for sf in site_files)
+            # "home" = the tasking-init component: its source file and its public header (the definitions may live in either)
+            outside = any(os.path.normpath(sf) not in (INIT_FILE, INIT_HEADER) for sf in site_files)
             for x in (tu.walk(body) if body is not None else ()):
                 if not x.get('id'):
                     continue
@@ -730,6 +858,10 @@ def run(ctx):
     ctx.describe('R-C13-6', 'the limit installed by initTaskingSystem is the only source of the team size (no num_threads clause, no other '
                             'caller of the limit APIs, no arena with explicit concurrency)')
     ctx.describe('R-C13-7', 'initTaskingSystem never empties the installed handle before the new one is constructed (no window without a limit)')
+    ctx.describe('R-C13-10', 'on return from initTaskingSystem the last write to the backend limit is the one carrying n: no destructor '
+                             '(of the previous handle) running inside the call writes another value afterwards')
+    ctx.describe('R-C13-11', 'the handle is one object per program: inline definitions in the public header must not reach a namespace-scope '
+                             'variable with internal linkage')
     ctx.describe('R-C13-8', 'when initTaskingSystem returns no persistent cell other than the global handle holds the previous handle '
                             '(TBB: a second live global_control keeps capping the limit)')
     ctx.describe('R-C13-9', 'OpenMP: the init path does not enable nested parallel regions (omp_set_max_active_levels(k>=2), '
@@ -773,6 +905,11 @@ def run(ctx):
             for u, t in zip(libs, ctx.front.parse_many([dict(unit=u, config=cfgname, extra=ND) for u in libs])):
                 scan.append((t, '%s %s' % (cfgname, u.split('/')[-1])))
     check_who_may_set(ctx, scan)
+    ccfgs = ('TBB', 'OMP', 'INTERNAL', 'DEBUG') if ctx.tier == 'thorough' else ('TBB',)
+    n11 = 0
+    for cfg, ctu in zip(ccfgs, ctx.front.parse_many([dict(unit=CLIENT, config=c, extra=ND) for c in ccfgs])):
+        n11 += check_one_handle(ctx, ctu, cfg)
+    ctx.floor('R-C13-11', n11, 2 * len(ccfgs), 'initTaskingSystem and numTaskingThreads per client parse')
     n7 = 0
     for ci, cfg in enumerate(('TBB', 'OMP', 'INTERNAL', 'DEBUG')):
         n7 += check_no_gap(ctx, tus[ci], cfg)
